@@ -5,6 +5,7 @@ import Driver.Decode
 import BqlVerif.Model.Pivot
 import Driver.CursorOps
 import Driver.NumberifyOps
+import Driver.FuncOps
 namespace Bql
 
 def showDesc (d : List (String × Ty)) : String :=
@@ -53,6 +54,9 @@ def handle (st : DState) (sx : Sexp) : DState × String :=
     (match decodeParams p, decodeSelect s with
      | some p, some s => (st, runSelect st.tables p s false)
      | _, _ => (st, "bad-op"))
+  | .list (.atom "fn" :: _) => (st, (handleFn sx).getD "bad-op")
+  | .list (.atom "fnmap" :: _) => (st, (handleFn sx).getD "bad-op")
+  | .list (.atom "fndates" :: _) => (st, (handleFn sx).getD "bad-op")
   | .list (.atom "numberify" :: _) => (st, (handleNumberify sx).getD "bad-op")
   | .list (.atom "cursor" :: _) => (st, (handleCursor sx).getD "bad-op")
   | .list [.atom "modelled-functions"] => (st, " ".intercalate modelledFunctions)
